@@ -616,8 +616,20 @@ func TestLOESS(t *testing.T) {
 		qmin := d + 3
 		q := rapid.IntRange(qmin, n).Draw(rt, "q")
 		c.Span = (float64(q) - 0.5) / float64(n) // ceil(span*n) == q
-		if q == n && rapid.Bool().Draw(rt, "spanOne") {
-			c.Span = 1
+		switch rapid.IntRange(0, 3).Draw(rt, "spanKind") {
+		case 1:
+			// span*n exactly (or within rounding of) an integer: ceil must not add a point
+			if q-1 >= qmin {
+				c.Span = float64(q-1) / float64(n)
+			} else {
+				c.Span = float64(q) / float64(n)
+			}
+		case 2:
+			// round fractions, which make span*n integral for suitable n
+			sp := rapid.SampledFrom([]float64{0.5, 0.25, 0.75, 0.2, 0.4, 0.6, 0.8, 1}).Draw(rt, "roundSpan")
+			if int(math.Ceil(sp*float64(n))) >= qmin {
+				c.Span = sp
+			}
 		}
 		// polynomial data of degree <= d half of the time (reproduction), arbitrary otherwise
 		if rapid.Bool().Draw(rt, "polyData") {
